@@ -67,6 +67,16 @@ theorem u32view_fixed_function (f : Nat → Nat) (s s' : Dens K) (k : Nat)
     (h : s.values[k]? = s'.values[k]?) : (u32view f s)[k]? = (u32view f s')[k]? := by
   simp [u32view, h]
 
+/-- the same for the view the MODEL itself computes (`Dens.u32View`, with `murmur3_32` modelled in `Model/Hashers.lean` and
+compared with the code after every operation): it is `murmurOfU64` mapped over the stored hashes, so two sketches that agree at
+a position in the u64 view agree there in the u32 view -/
+theorem model_u32_view_is_murmur_of_u64_view (s : Dens K) :
+    s.u32View = s.values.toList.map (fun v => Hashers.murmurOfU64 v.toUInt64) := rfl
+
+theorem model_u64_equal_u32_equal (s s' : Dens K) (k : Nat) (h : s.values[k]? = s'.values[k]?) :
+    s.u32View[k]? = s'.u32View[k]? := by
+  simp only [Dens.u32View, List.getElem?_map, Array.getElem?_toList, h]
+
 /-- **C09 (c)** two finished sketches that agree at a position in the u64 view agree there in the float view -/
 theorem u64_equal_float_equal (large : K) (m : Nat) (t : TOps K G R) (hn : Nice t m) (hr : ∀ g, (t.fr g).1 < large)
     (gen : Nat → G) (hs hs' : List Nat) (opt opt' : Bool) (fuel fuel' : Nat) (a1 a b1 b : Dens K)
